@@ -217,4 +217,20 @@ CHECKS = {
         note="Histories stay inside defined behaviour of the direct C++ API. The Python front end is not part of this "
              "check. Upstream test programs are not used (not sanitizer-clean by themselves).",
     ),
+    "C03": dict(
+        level="exploration",
+        technique="property-based differential testing against a reference model: Hypothesis library models, compiled "
+                  "CPython extension + instrumented subject library, generated Python driver performing every "
+                  "positional/keyword split and bad calls",
+        design_ref="DESIGN.md section 4, C03",
+        text="Generated libraries restricted to the Python-admitted rows are wrapped, built against CPython 3.12 and "
+             "linked with the logging subject library; the driver calls every function with every split of its arguments "
+             "between positional and keyword form (keyword order reversed on odd splits) and with too few / too many / "
+             "unknown-keyword / wrongly typed arguments; the stream must show the documented values delivered, the result "
+             "followed by every out/inout argument (single object or tuple), TypeError/ValueError without any library "
+             "call for bad calls, and methods acting on the right C++ object. Probes cover default arguments with "
+             "keywords and the recorded findings.",
+        note="Language c and c++, PY_array_arg=list; numpy variants are not executed. Five recorded known findings are "
+             "excluded by construction from the main search and probed on every run.",
+    ),
 }
